@@ -236,10 +236,46 @@ func checkC14(c C14Case, o *Obs) (err error) {
 
 func exhaustiveC14(thorough bool, emit func(C14Case) bool) {
 	// gene- and contig-sized coding sequence (size ladder), real-data-shaped
-	for i, n := range sizeLadder {
+	for i, n := range sizeLadderLinear {
 		s := realDNA(n, i, false, true)
 		if !emit(C14Case{Kind: "frames", Seq: s}) || !emit(C14Case{Kind: "translate", Seq: s[:n/3*3], Cut: n / 7}) {
 			return
+		}
+		// the same with one foreign byte, or one whole codon of NUL / 0xff / blanks / N (the panic
+		// must come whatever block it is in), each followed by a valid call of the same size
+		if n >= 4095 {
+			m := n / 3 * 3
+			for j, pos := range foreignPositions(m) {
+				bad := bytes.Clone(s[:m])
+				bad[pos] = "x\x00UN\xff@"[j%6]
+				cod := bytes.Clone(s[:m])
+				c0 := pos / 3 * 3
+				cod[c0], cod[c0+1], cod[c0+2] = "\x00\xff N-"[j%5], "\x00\xff N-"[j%5], "\x00\xff N-"[j%5]
+				if !emit(C14Case{Kind: "translate", Seq: bad}) || !emit(C14Case{Kind: "translate", Seq: cod}) || !emit(C14Case{Kind: "translate", Seq: realDNA(m, i+j+1, false, false)}) {
+					return
+				}
+			}
+		}
+	}
+	// a codon of three equal foreign bytes at the start, in the middle and at the end of sequences
+	// of 48..200 bases, all upper case, all lower case and mixed
+	for _, n := range []int{48, 51, 96, 99, 192, 201} {
+		for v := 0; v < 3; v++ {
+			s := realDNA(n, n+v, false, v == 2)
+			if v == 0 {
+				s = bytes.ToUpper(s)
+			} else if v == 1 {
+				s = bytes.ToLower(s)
+			}
+			for _, c0 := range []int{0, n / 6 * 3, n - 3} {
+				for _, f := range []byte{0, 0xff, ' ', 'N', '-', 'U'} {
+					bad := bytes.Clone(s)
+					bad[c0], bad[c0+1], bad[c0+2] = f, f, f
+					if !emit(C14Case{Kind: "translate", Seq: bad}) {
+						return
+					}
+				}
+			}
 		}
 	}
 	// a megabase coding sequence, valid and with one, two and three foreign bytes far apart: the
